@@ -236,8 +236,8 @@ def run(ctx):
         b = ga[0]
         if not (len(b.args) >= 2 and norm(b.args[0]) == "node" and norm(b.args[1]) == "name"):
             ctx.viol("F4", fb, b, "attribute read is not getattr(node, name)")
-    ctx.floor("F1", 20)
-    ctx.floor("F2", 25)
+    ctx.floor("F1", 16)
+    ctx.floor("F2", 18)
     ctx.floor("F3", 4)
     ctx.floor("F4", 2)
 
